@@ -1236,6 +1236,12 @@ pub fn c10(args: &Args) -> i32 {
                 if ctr % (if quick { 23 } else { 3 }) == 0 {
                     items.push((i, vec![s1.clone(), s2.clone()]));
                 }
+                if ctr % (if quick { 997 } else { 101 }) == 0 {
+                    // three-step histories through the unary steps (chains of unary operators, double negation, ...)
+                    for s3 in steps.iter().filter(|s| matches!(s, Step::Unary(_) | Step::Helper(_) | Step::Overloaded("neg", _))) {
+                        items.push((i, vec![s1.clone(), s2.clone(), s3.clone()]));
+                    }
+                }
             }
         }
     }
@@ -1446,7 +1452,7 @@ pub fn c10(args: &Args) -> i32 {
     sym::set_exact_lits(false);
     let _ = std::panic::take_hook();
     let p1 = to_part("histories-exact-literals", o1, w1, json!({
-        "pool": texts, "histories": format!("{n_items}: every (start expression, step) plus every {}th (start, step, step); steps = operate_unary {:?}, named helpers sin cos exp ln sqrt abs tanh, operate_binary {:?} with every pool element, overloaded + - * / pow with every pool element, neg", if quick { 23 } else { 3 }, unary_names, binary_names),
+        "pool": texts, "histories": format!("{n_items}: every (start expression, step) plus every {}th (start, step, step) plus sampled (start, step, step, unary step); steps = operate_unary {:?}, named helpers sin cos exp ln sqrt abs tanh, operate_binary {:?} with every pool element, overloaded + - * / pow with every pool element, neg", if quick { 23 } else { 3 }, unary_names, binary_names),
         "forms": ["DeepEx (operate_*, helpers, overloaded operators)", "FlatEx (Calculate::operate_*; overloaded steps through to_deepex/from_deepex)"],
         "check": "var_names == sorted union; value == operator applied to operand values under the domain of the unsimplified form (solver, NRA); printed result parses back (C12)",
     }));
@@ -1455,6 +1461,6 @@ pub fn c10(args: &Args) -> i32 {
     finish(args, "C10", vec![p1, p2, p3], vec![], json!({
         "functions": ["Calculate::{operate_unary, operate_binary}", "DeepEx::{operate_bin, operate_unary, var_names_union, reset_vars, compile}", "deep::detail::operate_bin", "impl Add/Sub/Mul/Div/Neg for DeepEx", "DeepEx::pow", "DeepEx::{sin, cos, exp, ln, sqrt, abs, tanh}", "DeepEx::is_zero/is_one"],
         "assumptions": ["as C05 (reals; elementary functions uninterpreted)", "domain = side conditions of the unsimplified reference form (denominators != 0, base of a non-integer power > 0, 0^0 excluded)"],
-        "outside": ["histories longer than 2", "pool members beyond the 12 listed", "bitwise/remainder overloads (no such operators in the float table)"],
+        "outside": ["histories longer than 3", "pool members beyond the 12 listed", "bitwise/remainder overloads (no such operators in the float table)"],
     }))
 }
